@@ -2,3 +2,4 @@ pub mod ast;
 pub mod print;
 pub mod wt;
 pub mod mutate;
+pub mod tok;
